@@ -42,6 +42,7 @@ type propConf struct {
 	memGiB       int    // ulimit -v for children, 0 = none
 	race         bool   // build the monitor with the race detector
 	raceKinds    string // with race=false: case kinds that still run under a race-detector build
+	superBin     bool   // also build the `super` executable (VERIF_SUPER_BIN) from the same tree
 }
 
 // The race detector is on for every property whose statement quantifies over
@@ -52,26 +53,26 @@ type propConf struct {
 // reader's 512 KiB buffers cost ~7× (measured), so these monitors are built
 // without -race (checkptr stays on) and explore ~7× more histories instead.
 var props = map[string]propConf{
-	"C01": {"exploration", 16, 16, 4, 10 * time.Minute, 60 * time.Minute, true, 0, true, ""},
-	"C02": {"exploration", 16, 16, 2, 10 * time.Minute, 60 * time.Minute, false, 0, true, ""},
-	"C03": {"exploration", 16, 16, 2, 10 * time.Minute, 60 * time.Minute, false, 0, true, ""},
-	"C04": {"exploration", 16, 16, 4, 10 * time.Minute, 60 * time.Minute, true, 0, true, ""},
-	"C05": {"exploration", 8, 8, 8, 10 * time.Minute, 60 * time.Minute, true, 0, true, ""},
-	"C06": {"exploration", 16, 16, 2, 10 * time.Minute, 60 * time.Minute, false, 0, true, ""},
-	"C07": {"exploration", 16, 16, 2, 10 * time.Minute, 60 * time.Minute, false, 0, true, ""},
-	"C08": {"exploration", 8, 8, 0, 10 * time.Minute, 60 * time.Minute, true, 0, true, ""},
-	"C09": {"exploration", 16, 16, 2, 10 * time.Minute, 60 * time.Minute, false, 0, false, ""},
-	"C10": {"exploration", 16, 16, 2, 10 * time.Minute, 60 * time.Minute, false, 0, true, ""},
-	"C11": {"exploration", 16, 16, 2, 15 * time.Minute, 90 * time.Minute, false, 6, true, ""},
-	"C12": {"exploration", 8, 8, 4, 10 * time.Minute, 60 * time.Minute, true, 0, false, "stress"},
-	"C13": {"exploration", 8, 8, 4, 10 * time.Minute, 60 * time.Minute, true, 0, false, "stress"},
-	"C14": {"exploration", 16, 16, 2, 10 * time.Minute, 60 * time.Minute, false, 0, false, ""},
-	"C15": {"exploration", 16, 16, 2, 10 * time.Minute, 60 * time.Minute, false, 0, false, ""},
-	"C16": {"exploration", 16, 16, 2, 10 * time.Minute, 60 * time.Minute, false, 0, false, ""},
-	"C17": {"fault_enumeration", 16, 16, 2, 10 * time.Minute, 60 * time.Minute, false, 0, false, ""},
-	"C18": {"fault_enumeration", 16, 16, 2, 10 * time.Minute, 60 * time.Minute, false, 0, true, ""},
-	"C19": {"exploration", 8, 8, 4, 10 * time.Minute, 60 * time.Minute, false, 0, false, ""},
-	"C20": {"exploration", 16, 16, 2, 10 * time.Minute, 60 * time.Minute, false, 0, true, ""},
+	"C01": {"exploration", 16, 16, 4, 10 * time.Minute, 60 * time.Minute, true, 0, true, "", false},
+	"C02": {"exploration", 16, 16, 2, 10 * time.Minute, 60 * time.Minute, false, 0, true, "", false},
+	"C03": {"exploration", 16, 16, 2, 10 * time.Minute, 60 * time.Minute, false, 0, true, "", false},
+	"C04": {"exploration", 16, 16, 4, 10 * time.Minute, 60 * time.Minute, true, 0, true, "", false},
+	"C05": {"exploration", 8, 8, 8, 10 * time.Minute, 60 * time.Minute, true, 0, true, "", false},
+	"C06": {"exploration", 16, 16, 2, 10 * time.Minute, 60 * time.Minute, false, 0, true, "", false},
+	"C07": {"exploration", 16, 16, 2, 10 * time.Minute, 60 * time.Minute, false, 0, true, "", false},
+	"C08": {"exploration", 8, 8, 0, 10 * time.Minute, 60 * time.Minute, true, 0, true, "", false},
+	"C09": {"exploration", 16, 16, 2, 10 * time.Minute, 60 * time.Minute, false, 0, false, "", false},
+	"C10": {"exploration", 16, 16, 2, 10 * time.Minute, 60 * time.Minute, false, 0, true, "", false},
+	"C11": {"exploration", 16, 16, 2, 15 * time.Minute, 90 * time.Minute, false, 6, true, "", false},
+	"C12": {"exploration", 8, 8, 4, 10 * time.Minute, 60 * time.Minute, true, 0, false, "stress", false},
+	"C13": {"exploration", 8, 8, 4, 10 * time.Minute, 60 * time.Minute, true, 0, false, "stress", false},
+	"C14": {"exploration", 16, 16, 2, 10 * time.Minute, 60 * time.Minute, false, 0, false, "", true},
+	"C15": {"exploration", 16, 16, 2, 10 * time.Minute, 60 * time.Minute, false, 0, false, "", false},
+	"C16": {"exploration", 16, 16, 2, 10 * time.Minute, 60 * time.Minute, false, 0, false, "", false},
+	"C17": {"fault_enumeration", 16, 16, 2, 10 * time.Minute, 60 * time.Minute, false, 0, false, "", false},
+	"C18": {"fault_enumeration", 16, 16, 2, 10 * time.Minute, 60 * time.Minute, false, 0, true, "", false},
+	"C19": {"exploration", 8, 8, 4, 10 * time.Minute, 60 * time.Minute, false, 0, false, "", false},
+	"C20": {"exploration", 16, 16, 2, 10 * time.Minute, 60 * time.Minute, false, 0, true, "", false},
 }
 
 type finding struct {
@@ -137,6 +138,20 @@ func main() {
 	if err := buildMonitor(monBin, *overlay, conf.race); err != nil {
 		fmt.Printf("BUILD-FAILED property=%s\n%s\n", id, err)
 		os.Exit(2)
+	}
+
+	if conf.superBin {
+		// the `super` executable of the same tree (and overlay), for steps that
+		// only exist as commands (`super db manage`)
+		bin := filepath.Join(cache, "super-"+id)
+		if *overlay != "" {
+			bin += "-ov"
+		}
+		if err := buildSuper(bin, *overlay); err != nil {
+			fmt.Printf("BUILD-FAILED property=%s\n%s\n", id, err)
+			os.Exit(2)
+		}
+		os.Setenv("VERIF_SUPER_BIN", bin)
 	}
 
 	runDir := filepath.Join(cache, "run", fmt.Sprintf("%s-%s-%d-%d", id, *tier, seed, os.Getpid()))
@@ -392,6 +407,30 @@ func buildMonitor(out, overlay string, race bool) error {
 		args = append(args, "-overlay", abs)
 	}
 	args = append(args, "./mon")
+	cmd := exec.Command("go", args...)
+	cmd.Dir = verifDir
+	cmd.Env = goEnv()
+	var buf bytes.Buffer
+	cmd.Stdout = &buf
+	cmd.Stderr = &buf
+	if err := cmd.Run(); err != nil {
+		return fmt.Errorf("go %s: %v\n%s", strings.Join(args, " "), err, buf.String())
+	}
+	return nil
+}
+
+func buildSuper(out, overlay string) error {
+	lock, err := os.OpenFile(out+".lock", os.O_CREATE|os.O_RDWR, 0o644)
+	if err == nil {
+		syscall.Flock(int(lock.Fd()), syscall.LOCK_EX)
+		defer func() { syscall.Flock(int(lock.Fd()), syscall.LOCK_UN); lock.Close() }()
+	}
+	args := []string{"build", "-o", out}
+	if overlay != "" {
+		abs, _ := filepath.Abs(overlay)
+		args = append(args, "-overlay", abs)
+	}
+	args = append(args, "github.com/brimdata/super/cmd/super")
 	cmd := exec.Command("go", args...)
 	cmd.Dir = verifDir
 	cmd.Env = goEnv()
